@@ -6,6 +6,8 @@ package document
 
 //@ spec rowsOwn(t *Table) bool = forall r1 int, r2 int :: 0 <= r1 && r1 < r2 && r2 < len(t.Rows) ==> arr(t.Rows[r1].Cells) != arr(t.Rows[r2].Cells)
 
+//@ spec cellPropsOwn(t *Table) bool = forall r1 int, c1 int, r2 int, c2 int :: 0 <= r1 && r1 < len(t.Rows) && 0 <= c1 && c1 < len(t.Rows[r1].Cells) && 0 <= r2 && r2 < len(t.Rows) && 0 <= c2 && c2 < len(t.Rows[r2].Cells) && (r1 != r2 || c1 != c2) && t.Rows[r1].Cells[c1].Properties != nil ==> t.Rows[r1].Cells[c1].Properties != t.Rows[r2].Cells[c2].Properties
+
 //@ func (*Table).GetCell
 //@ props C09
 //@ requires t != nil
@@ -94,3 +96,92 @@ package document
 //@   invariant forall r int, c int :: #i <= r && r < len(t.Rows) && 0 <= c && c < old(len(t.Rows[r].Cells)) ==> t.Rows[r].Cells[c] == old(t.Rows[r].Cells[c])
 //@   invariant forall r int :: 0 <= r && r < #i ==> len(t.Rows[r].Cells[position].Paragraphs) == 1 && len(t.Rows[r].Cells[position].Paragraphs[0].Runs) == 1 && t.Rows[r].Cells[position].Paragraphs[0].Runs[0].Text.Content == ite(r < len(data), data[r], "")
 //@   decreases len(t.Rows) - #i
+
+//@ func (*Table).AppendColumn
+//@ props C09
+//@ requires t != nil && rowsOwn(t)
+//@ ensures err != nil ==> unchangedHeap()
+//@ ensures err == nil ==> len(t.Rows) == old(len(t.Rows)) && rowsOwn(t)
+//@ ensures err == nil ==> forall r int :: 0 <= r && r < len(t.Rows) ==> len(t.Rows[r].Cells) == old(len(t.Rows[r].Cells)) + 1
+
+//@ func (*Table).DeleteColumn
+//@ props C09
+//@ requires t != nil && rowsOwn(t)
+//@ ensures err != nil ==> unchangedHeap()
+//@ ensures err == nil ==> len(t.Rows) == old(len(t.Rows)) && rowsOwn(t) && 0 <= colIndex
+//@ ensures err == nil ==> forall r int :: 0 <= r && r < len(t.Rows) ==> len(t.Rows[r].Cells) == old(len(t.Rows[r].Cells)) - 1
+//@ ensures err == nil && old(t.Grid) != nil && colIndex < old(len(t.Grid.Cols)) ==> len(t.Grid.Cols) == old(len(t.Grid.Cols)) - 1
+//@ ensures err == nil && old(t.Grid) != nil && colIndex >= old(len(t.Grid.Cols)) ==> len(t.Grid.Cols) == old(len(t.Grid.Cols))
+//@ ensures err == nil ==> len(t.Rows[0].Cells) >= 1
+//@ loop 1
+//@   invariant 0 <= #i && #i <= len(t.Rows) && unchangedHeap()
+//@   invariant forall r int :: 0 <= r && r < #i ==> colIndex < len(t.Rows[r].Cells)
+//@   decreases len(t.Rows) - #i
+//@ loop 2
+//@   invariant 0 <= #i && #i <= len(t.Rows) && len(t.Rows) == old(len(t.Rows)) && t.Rows == old(t.Rows) && t.Grid == old(t.Grid)
+//@   invariant rowsOwn(t)
+//@   invariant old(t.Grid) != nil && colIndex < old(len(t.Grid.Cols)) ==> len(t.Grid.Cols) == old(len(t.Grid.Cols)) - 1
+//@   invariant old(t.Grid) != nil && colIndex >= old(len(t.Grid.Cols)) ==> len(t.Grid.Cols) == old(len(t.Grid.Cols))
+//@   invariant forall r int :: 0 <= r && r < len(t.Rows) ==> colIndex < old(len(t.Rows[r].Cells))
+//@   invariant forall r int :: 0 <= r && r < #i ==> len(t.Rows[r].Cells) == old(len(t.Rows[r].Cells)) - 1
+//@   invariant forall r int :: #i <= r && r < len(t.Rows) ==> t.Rows[r].Cells == old(t.Rows[r].Cells)
+//@   decreases len(t.Rows) - #i
+
+//@ func (*Table).DeleteColumns
+//@ props C09
+//@ requires t != nil && rowsOwn(t)
+//@ ensures err != nil ==> unchangedHeap()
+//@ ensures err == nil ==> len(t.Rows) == old(len(t.Rows)) && rowsOwn(t) && 0 <= startIndex && startIndex <= endIndex
+//@ ensures err == nil ==> forall r int :: 0 <= r && r < len(t.Rows) ==> len(t.Rows[r].Cells) == old(len(t.Rows[r].Cells)) - (endIndex - startIndex + 1)
+//@ ensures err == nil && old(t.Grid) != nil && endIndex < old(len(t.Grid.Cols)) ==> len(t.Grid.Cols) == old(len(t.Grid.Cols)) - (endIndex - startIndex + 1)
+//@ ensures err == nil ==> len(t.Rows[0].Cells) >= 1
+//@ loop 1
+//@   invariant 0 <= #i && #i <= len(t.Rows) && unchangedHeap()
+//@   invariant forall r int :: 0 <= r && r < #i ==> endIndex < len(t.Rows[r].Cells)
+//@   decreases len(t.Rows) - #i
+//@ loop 2
+//@   invariant 0 <= #i && #i <= len(t.Rows) && len(t.Rows) == old(len(t.Rows)) && t.Rows == old(t.Rows) && t.Grid == old(t.Grid)
+//@   invariant rowsOwn(t)
+//@   invariant old(t.Grid) != nil && endIndex < old(len(t.Grid.Cols)) ==> len(t.Grid.Cols) == old(len(t.Grid.Cols)) - (endIndex - startIndex + 1)
+//@   invariant forall r int :: 0 <= r && r < len(t.Rows) ==> endIndex < old(len(t.Rows[r].Cells))
+//@   invariant forall r int :: 0 <= r && r < #i ==> len(t.Rows[r].Cells) == old(len(t.Rows[r].Cells)) - (endIndex - startIndex + 1)
+//@   invariant forall r int :: #i <= r && r < len(t.Rows) ==> t.Rows[r].Cells == old(t.Rows[r].Cells)
+//@   decreases len(t.Rows) - #i
+
+//@ func (*Table).MergeCellsHorizontal
+//@ props C09
+//@ requires t != nil && rowsOwn(t)
+//@ ensures err == nil <==> (0 <= row && row < len(t.Rows) && 0 <= startCol && startCol < endCol && endCol < old(len(t.Rows[row].Cells)))
+//@ ensures err != nil ==> unchangedHeap()
+//@ ensures err == nil ==> len(t.Rows) == old(len(t.Rows)) && t.Rows == old(t.Rows) && rowsOwn(t)
+//@ ensures err == nil ==> len(t.Rows[row].Cells) == old(len(t.Rows[row].Cells)) - (endCol - startCol)
+//@ ensures err == nil ==> t.Rows[row].Cells[startCol].Properties != nil && t.Rows[row].Cells[startCol].Properties.GridSpan != nil && t.Rows[row].Cells[startCol].Properties.GridSpan.Val == itoa(endCol - startCol + 1)
+//@ ensures err == nil ==> forall c int :: 0 <= c && c < startCol ==> t.Rows[row].Cells[c] == old(t.Rows[row].Cells[c])
+//@ ensures err == nil ==> forall c int :: startCol < c && c < len(t.Rows[row].Cells) ==> t.Rows[row].Cells[c] == old(t.Rows[row].Cells[c + (endCol - startCol)])
+//@ ensures err == nil ==> t.Rows[row].Cells[startCol].Paragraphs == old(t.Rows[row].Cells[startCol].Paragraphs)
+//@ ensures err == nil ==> forall r int :: 0 <= r && r < len(t.Rows) && r != row ==> t.Rows[r].Cells == old(t.Rows[r].Cells)
+//@ ensures err == nil ==> forall r int, c int :: 0 <= r && r < len(t.Rows) && r != row && 0 <= c && c < len(t.Rows[r].Cells) ==> t.Rows[r].Cells[c] == old(t.Rows[r].Cells[c])
+
+//@ func (*Table).MergeCellsVertical
+//@ props C09
+//@ requires t != nil && rowsOwn(t) && cellPropsOwn(t)
+//@ ensures err != nil ==> unchangedHeap()
+//@ ensures err == nil ==> 0 <= startRow && startRow < endRow && endRow < len(t.Rows) && 0 <= col
+//@ ensures err == nil ==> len(t.Rows) == old(len(t.Rows)) && t.Rows == old(t.Rows)
+//@ ensures err == nil ==> forall r int :: 0 <= r && r < len(t.Rows) ==> t.Rows[r].Cells == old(t.Rows[r].Cells)
+//@ ensures err == nil ==> cellPropsOwn(t)
+//@ ensures err == nil ==> t.Rows[startRow].Cells[col].Properties != nil && t.Rows[startRow].Cells[col].Properties.VMerge != nil && t.Rows[startRow].Cells[col].Properties.VMerge.Val == "restart"
+//@ ensures err == nil ==> forall r int :: startRow < r && r <= endRow ==> t.Rows[r].Cells[col].Properties != nil && t.Rows[r].Cells[col].Properties.VMerge != nil && t.Rows[r].Cells[col].Properties.VMerge.Val == "continue" && len(t.Rows[r].Cells[col].Paragraphs) == 1
+//@ loop 1
+//@   invariant startRow <= i && i <= endRow + 1 && unchangedHeap()
+//@   invariant forall r int :: startRow <= r && r < i ==> col < len(t.Rows[r].Cells)
+//@   decreases endRow + 1 - i
+//@ loop 2
+//@   invariant startRow + 1 <= i && i <= endRow + 1
+//@   invariant len(t.Rows) == old(len(t.Rows)) && t.Rows == old(t.Rows)
+//@   invariant forall r int :: 0 <= r && r < len(t.Rows) ==> t.Rows[r].Cells == old(t.Rows[r].Cells)
+//@   invariant cellPropsOwn(t)
+//@   invariant forall r int :: startRow <= r && r <= endRow ==> col < len(t.Rows[r].Cells)
+//@   invariant t.Rows[startRow].Cells[col].Properties != nil && t.Rows[startRow].Cells[col].Properties.VMerge != nil && t.Rows[startRow].Cells[col].Properties.VMerge.Val == "restart"
+//@   invariant forall r int :: startRow < r && r < i ==> t.Rows[r].Cells[col].Properties != nil && t.Rows[r].Cells[col].Properties.VMerge != nil && t.Rows[r].Cells[col].Properties.VMerge.Val == "continue" && len(t.Rows[r].Cells[col].Paragraphs) == 1
+//@   decreases endRow + 1 - i
